@@ -103,15 +103,6 @@ Proof.
   rewrite N.div_mul by lia. pose proof (N.div_mod b 16). lia.
 Qed.
 
-Fixpoint b64_rt_fuel (n : nat) (x : bytes) : Prop :=
-  match n with
-  | O => True
-  | S k => match x with
-           | a :: b :: c :: r => b64_rt_fuel k r
-           | _ => True
-           end
-  end.
-
 Lemma b64_roundtrip_aux : forall (n : nat) (x : bytes), (List.length x <= n)%nat ->
   Forall is_byte x -> b64_decode (b64_encode x) = x.
 Proof.
